@@ -10,7 +10,7 @@ import (
 // dispatcherRule: every batch line in range is started exactly once and every
 // started run's result is collected (shared by C03 and C11).
 func dispatcherRule(p *Prog, r *Report, rule string) {
-	r.Rule(rule, "dispatcher: the goroutine launch of a batch line cannot be skipped (its slot guard is implied by the exit condition of the preceding wait loop and by the counter invariant); the active-run counter is incremented only next to the launch and decremented only on a received result, which is also handed to the error summary; a drain loop collects the remaining results; every channel handed to a run is made unconditionally; every receive site keeps the summary in the list that is printed", 8)
+	r.Rule(rule, "dispatcher: the goroutine launch of a batch line cannot be skipped (its slot guard is implied by the exit condition of the preceding wait loop and by the counter invariant); the active-run counter is incremented only next to the launch and decremented only on a received result, which is also handed to the error summary; a drain loop collects the remaining results; every channel handed to a run is made unconditionally; every receive site keeps the summary in the list that is printed; the id a run reports under is the index of its line in the batch handed to the dispatcher", 9)
 	key := "hermes2go.doConcurrentBatchRun"
 	fi := p.Funcs[key]
 	x := walked(p, key)
@@ -342,6 +342,81 @@ func dispatcherRule(p *Prog, r *Report, rule string) {
 		}
 	}
 	r.Ob("drain", p.Pos(fi.Decl.Pos()), drain, "after the last launch a loop runs while the active-run counter is positive (all results are collected before the summary is printed)")
+	// the id under which a run reports (and under which the summary lists a failure) is the position of its line in
+	// the batch: the loop ranges over the dispatcher's lines parameter itself, nothing reassigns or re-slices that
+	// parameter, and the id handed to the run is formatted from the loop's index and nothing else
+	{
+		rs, _ := L.Stmt.(*ast.RangeStmt)
+		assigned := func(obj types.Object, in ast.Node) int {
+			n := 0
+			ast.Inspect(in, func(m ast.Node) bool {
+				switch s := m.(type) {
+				case *ast.AssignStmt:
+					for _, l := range s.Lhs {
+						if id, ok := l.(*ast.Ident); ok && (info.Uses[id] == obj || (info.Defs[id] == obj && s.Tok != token.DEFINE)) {
+							n++
+						}
+					}
+				case *ast.IncDecStmt:
+					if id, ok := s.X.(*ast.Ident); ok && info.Uses[id] == obj {
+						n++
+					}
+				}
+				return true
+			})
+			return n
+		}
+		okID, det := false, "range statement of the batch lines not found"
+		if rs != nil {
+			ranged := useObj(info, rs.X)
+			_, isParam := paramIndex(fi.Decl, ranged)
+			reassigned := ranged != nil && assigned(ranged, fi.Decl.Body) > 0
+			var idx types.Object
+			if id, ok := rs.Key.(*ast.Ident); ok {
+				idx = info.Defs[id]
+			}
+			// the id argument of the launch
+			var idArg ast.Expr
+			ast.Inspect(rs.Body, func(n ast.Node) bool {
+				if g, ok := n.(*ast.GoStmt); ok && len(g.Call.Args) >= 3 {
+					idArg = g.Call.Args[2]
+				}
+				return true
+			})
+			fromIdx := false
+			if id, ok := idArg.(*ast.Ident); ok && idx != nil {
+				o := info.Uses[id]
+				n := 0
+				ast.Inspect(rs.Body, func(m ast.Node) bool {
+					as, ok := m.(*ast.AssignStmt)
+					if !ok {
+						return true
+					}
+					for k, l := range as.Lhs {
+						lid, ok := l.(*ast.Ident)
+						if !ok || (info.Defs[lid] != o && info.Uses[lid] != o) || k >= len(as.Rhs) {
+							continue
+						}
+						n++
+						// fmt.Sprintf(format, i): the only value argument is the loop index itself
+						if c, ok := as.Rhs[k].(*ast.CallExpr); ok && len(c.Args) == 2 {
+							if a, ok := ast.Unparen(c.Args[1]).(*ast.Ident); ok && info.Uses[a] == idx {
+								fromIdx = true
+							}
+						}
+					}
+					return true
+				})
+				if n != 1 {
+					fromIdx = false
+				}
+			}
+			idxAssigned := idx != nil && assigned(idx, rs.Body) > 0
+			okID = isParam && !reassigned && fromIdx && !idxAssigned
+			det = fmt.Sprintf("ranges over the lines parameter: %v, parameter reassigned or re-sliced in the dispatcher: %v, the id handed to the run is formatted from the loop index alone: %v, index assigned in the body: %v", isParam, reassigned, fromIdx, idxAssigned)
+		}
+		r.Ob("log-id", p.Pos(L.Stmt.Pos()), okID, det)
+	}
 }
 
 // condAtoms visits all atoms of a condition tree.
